@@ -1,5 +1,5 @@
 // ---- shim/version.rs : io::slippi::Version — the struct and gte/lt are extracted from /repo and verified against `ge` ----
-//@struct src/io/slippi/mod.rs Version
+//@struct src/io/slippi/mod.rs Version | eq
 impl Version {
 	// the property's order: (major, minor) compared lexicographically, stated arithmetically
 	pub open spec fn ge(&self, major: u8, minor: u8) -> bool {
